@@ -88,6 +88,9 @@ fn payloads() -> Vec<(String, Vec<u8>)> {
         // (new payloads go at the end: cases refer to the ones above by position)
         ("65537 zero bytes".into(), vec![0u8; 65537]),
         ("200008 bytes of a 4-byte pattern".into(), b"abcd".iter().cycle().take(200_008).cloned().collect()),
+        // larger than a frame once decompressed, far smaller on the wire (a batch of ordinary log lines)
+        ("1.5 MiB of repetitive text".into(), "2026-10-03T10:00:00Z INFO sensor=42 reading=17.25 status=ok\n".repeat(26_000).into_bytes()),
+        ("3 MiB of zero bytes".into(), vec![0u8; 3 << 20]),
     ]
 }
 
